@@ -229,6 +229,29 @@ pub fn execute(case: &Case) -> Outcome {
         c.close();
         // wait until its slot is back: a fresh connection is served
         std::thread::sleep(Duration::from_millis(50));
+        // ---- (3b) with nothing else open, a connection is served whichever listener the kernel hands it to
+        // (the limit is not exceeded by one connection, so it may not wait)
+        for l in 0..listeners {
+            if let Some(mut c1) = Client::open(&net, l) {
+                let mut n = Request::bare(op::NOOP);
+                n.opaque = 50 + l as u32;
+                c1.send(&n);
+                let ok = c1.recv(LONG).is_some();
+                fp.u8(ok as u8);
+                out.count("single_connection_per_listener_probes", 1);
+                if !ok {
+                    viols.push(Violation::new(
+                        "C20",
+                        "connection-waits-although-under-the-limit",
+                        format!("{} runtime, {} thread(s), --connection-limit {}: the only open connection, arriving at listener {} of {}, was not served within {:?}", runtime, threads, limit, l, listeners, LONG),
+                    ));
+                    c1.close();
+                    break;
+                }
+                c1.close();
+                std::thread::sleep(Duration::from_millis(20));
+            }
+        }
         // ---- (4) the configured connection limit is the one enforced, whichever listener gets the connections
         let mut clients: Vec<Client> = Vec::new();
         for k in 0..limit + 1 {
